@@ -14,15 +14,16 @@ Open Scope N_scope.
 
 (** a loop that has taken an element will pull once more: the pull is paid for by the element *)
 Definition credit (q : req) (g : list N) : Z :=
-  match q_ctx q, g with CLoop _ _, _ :: _ => 8%Z | _, _ => 0%Z end.
+  match q_ctx q, g with CLoop _ _, _ :: _ => 9%Z | _, _ => 0%Z end.
 Definition credit_pub (q : req) (g : list N) : Z :=
-  match q_ctx q with CLoop _ _ => if single q then 8%Z else credit q g | CTop => 0%Z end.
+  match q_ctx q with CLoop _ _ => if single q then 9%Z else credit q g | CTop => 0%Z end.
 
 Definition wpc (p : pc) : Z :=
   match p with
   | PIdle => 0
-  | PRes _ => 7
-  | PChkF _ _ | PLdY _ _ => 6
+  | PRes _ => 8
+  | PChkF _ _ | PLdY _ _ => 7
+  | PChkT _ _ => 6
   | PSrc q _ g => 5 + credit q g
   | PSetF q _ g => 4 + credit q g
   | PPub q _ g => 3 + credit_pub q g
@@ -32,7 +33,7 @@ Definition wpc (p : pc) : Z :=
   | PLen2 _ => 1
   end%Z.
 
-Definition wts (ts : tstate) : Z := (8 * Z.of_nat (length (t_todo ts)) + wpc (t_pc ts))%Z.
+Definition wts (ts : tstate) : Z := (9 * Z.of_nat (length (t_todo ts)) + wpc (t_pc ts))%Z.
 Definition wsrc (e : env) (sh : shared) : Z := (10 * Z.of_N (e_len e - s_cur sh))%Z.
 
 (** a turn of the waiting loop *)
@@ -48,9 +49,9 @@ Definition is_neutral (sh : shared) (ts : tstate) : bool :=
   | _ => false
   end.
 
-Lemma credit_nonneg q g : (0 <= credit q g <= 8)%Z.
+Lemma credit_nonneg q g : (0 <= credit q g <= 9)%Z.
 Proof. unfold credit. destruct (q_ctx q), g; lia. Qed.
-Lemma credit_pub_nonneg q g : (0 <= credit_pub q g <= 8)%Z.
+Lemma credit_pub_nonneg q g : (0 <= credit_pub q g <= 9)%Z.
 Proof. unfold credit_pub. destruct (q_ctx q); [lia|]. destruct (single q); [lia|apply credit_nonneg]. Qed.
 Lemma credit_pub_ge q g : (credit q g <= credit_pub q g)%Z.
 Proof. unfold credit_pub, credit. destruct (q_ctx q); [lia|]. destruct (single q), g; lia. Qed.
@@ -86,7 +87,7 @@ Definition local_ok (c : cfg) (t : tid) (sh' : shared) (ts' : tstate) : Prop :=
 
 Lemma finish_local c t sh' l q pr :
   (forall ts' o, deliver e (c_pool c t) q pr = (ts', o) ->
-     (8 * Z.of_nat (length (t_todo ts')) + wpc (t_pc ts') + wsrc e sh' < wts (c_pool c t) + wsrc e (c_sh c))%Z) ->
+     (9 * Z.of_nat (length (t_todo ts')) + wpc (t_pc ts') + wsrc e sh' < wts (c_pool c t) + wsrc e (c_sh c))%Z) ->
   is_neutral (c_sh c) (c_pool c t) = false ->
   exists sh2 ts2 l2 evs2, finish e c t sh' (c_pool c t) l q pr = commit c t sh2 ts2 l2 evs2 /\ local_ok c t sh2 ts2.
 Proof.
@@ -98,7 +99,7 @@ Lemma step_local c t :
   (step e c t = c /\ is_neutral (c_sh c) (c_pool c t) = true /\ t_pc (c_pool c t) = PIdle) \/
   exists sh' ts' l evs, step e c t = commit c t sh' ts' l evs /\ local_ok c t sh' ts'.
 Proof.
-  destruct (t_pc (c_pool c t)) as [|q|q b|q b|q b got|q b got|q b got|q b got| |hm|hm] eqn:Hpc.
+  destruct (t_pc (c_pool c t)) as [|q|q b|q b|q b|q b got|q b got|q b got|q b got| |hm|hm] eqn:Hpc.
   - (* idle *)
     destruct (t_todo (c_pool c t)) as [|o rest] eqn:Htodo.
     + left. rewrite (istep_idle_nil e c t) by assumption. unfold is_neutral. rewrite Hpc, Htodo. auto.
@@ -106,7 +107,7 @@ Proof.
       assert (Hn : is_neutral (c_sh c) (c_pool c t) = false) by (unfold is_neutral; rewrite Hpc, Htodo; reflexivity).
       destruct (call_res e (c_pool c t) o) as [p|bf r d] eqn:E.
       * eexists _, _, _, _. split; [reflexivity|]. unfold local_ok. rewrite Hn. unfold wts. cbn [t_todo t_pc]. rewrite Hpc, Htodo. cbn [length wpc].
-        assert (wpc p <= 7)%Z.
+        assert (wpc p <= 8)%Z.
         { unfold call_res in E. destruct o; try (injection E as <-; cbn [wpc]; lia).
           - destruct (e_kind e); [..|destruct (n =? 0); [discriminate|]]; injection E as <-; cbn [wpc]; lia.
           - destruct (c0 =? 0); discriminate.
@@ -128,12 +129,21 @@ Proof.
   - (* yielded counter *)
     right. rewrite (istep_ldy e c t q b Hpc). destruct (b =? s_y (c_sh c)) eqn:E1.
     + eexists _, _, _, _. split; [reflexivity|]. unfold local_ok, is_neutral. rewrite Hpc, E1. cbn [negb andb].
-      unfold wts. cbn [set_pc t_todo t_pc]. rewrite Hpc. cbn [wpc]. unfold credit. destruct (q_ctx q); lia.
+      unfold wts. cbn [set_pc t_todo t_pc]. rewrite Hpc. cbn [wpc]. lia.
     + destruct (b <? s_y (c_sh c)) eqn:E2.
       * apply finish_local; [|unfold is_neutral; rewrite Hpc, E1, E2; reflexivity].
         intros ts' o E. destruct (deliver_w _ _ _ _ _ _ E) as (Et & [Ep|(Ep & l0 & cr & b0 & rs & cnt & _ & Epr)]); [|discriminate].
         rewrite Et, Ep. unfold wts. rewrite Hpc. cbn [wpc]. lia.
       * eexists _, _, _, _. split; [reflexivity|]. unfold local_ok, is_neutral. rewrite Hpc, E1, E2. cbn [negb andb set_pc t_pc t_todo flip]. auto.
+  - (* its turn: the completed flag once more *)
+    right. rewrite (istep_chkt e c t q b Hpc).
+    assert (Hn : is_neutral (c_sh c) (c_pool c t) = false) by (unfold is_neutral; rewrite Hpc; reflexivity).
+    destruct (s_f (c_sh c)) eqn:Ef.
+    + apply finish_local; [|exact Hn].
+      intros ts' o E. destruct (deliver_w _ _ _ _ _ _ E) as (Et & [Ep|(Ep & l0 & cr & b0 & rs & cnt & _ & Epr)]); [|discriminate].
+      rewrite Et, Ep. unfold wts. rewrite Hpc. cbn [wpc]. lia.
+    + eexists _, _, _, _. split; [reflexivity|]. unfold local_ok. rewrite Hn.
+      unfold wts. cbn [set_pc t_todo t_pc]. rewrite Hpc. cbn [wpc]. unfold credit. destruct (q_ctx q); lia.
   - (* one call of the wrapped iterator *)
     right.
     assert (Hn : is_neutral (c_sh c) (c_pool c t) = false) by (unfold is_neutral; rewrite Hpc; reflexivity).
@@ -185,7 +195,7 @@ Proof.
     { intros l pr Hpr. apply finish_local; [|exact Hn].
       intros ts' o E. destruct (deliver_w _ _ _ _ _ _ E) as (Et & [Ep|(Ep & l0 & cr & b0 & rs & cnt & _ & Epr)]); [|exfalso; eapply Hpr; exact Epr].
       rewrite Et, Ep, Hs. unfold wts. rewrite Hpc. cbn [wpc]. lia. }
-    assert (Hgot : forall l pr, (8 <= credit_pub q got \/ q_ctx q = CTop)%Z ->
+    assert (Hgot : forall l pr, (9 <= credit_pub q got \/ q_ctx q = CTop)%Z ->
               exists sh2 ts2 l2 evs2, finish e c t (with_y (c_sh c) (wadd (s_y (c_sh c)) (pub_incr q))) (c_pool c t) l q pr = commit c t sh2 ts2 l2 evs2 /\ local_ok c t sh2 ts2).
     { intros l pr Hcr. apply finish_local; [|exact Hn].
       intros ts' o E. destruct (deliver_w _ _ _ _ _ _ E) as (Et & [Ep|(Ep & l0 & cr & b0 & rs & cnt & Ectx & Epr)]).
@@ -387,7 +397,7 @@ Qed.
 Lemma iC_step c t : IInvA e L c -> IInvC c -> In t L -> istep_nowrap c t -> IInvC (step e c t).
 Proof.
   intros A I Hin Hw. unfold istep_nowrap in Hw. pose proof (a_prot e L c A) as P.
-  destruct (t_pc (c_pool c t)) as [|q|q b|q b|q b got|q b got|q b got|q b got| |hm|hm] eqn:Hpc.
+  destruct (t_pc (c_pool c t)) as [|q|q b|q b|q b|q b got|q b got|q b got|q b got| |hm|hm] eqn:Hpc.
   - destruct (t_todo (c_pool c t)) as [|o rest] eqn:Htodo.
     + rewrite (istep_idle_nil e c t) by assumption. exact I.
     + rewrite (istep_idle_call e c t o rest) by assumption. unfold call.
@@ -409,6 +419,10 @@ Proof.
     + exfalso. apply N.ltb_lt in E2.
       assert (Tt : ticket (pcs_of c t) = Some (b, pub_incr q)) by (unfold pcs_of; rewrite Hpc; reflexivity).
       pose proof (p_tk _ _ _ _ _ P t _ _ Tt). lia.
+    + apply iC_keep; auto. cbn [set_pc t_pc]. rewrite Hpc. reflexivity.
+  - rewrite (istep_chkt e c t q b Hpc). destruct (s_f (c_sh c)) eqn:Ef.
+    + destruct (finish_form' c t (c_sh c) (LAtom t SF ALoad 0 (bN true) (o_chkt q)) q (Ok PREnd)) as (ts' & evs & -> & _).
+      apply iC_flag. exact Ef.
     + apply iC_keep; auto. cbn [set_pc t_pc]. rewrite Hpc. reflexivity.
   - assert (Hg : forall sh' p' l, s_c sh' = s_c (c_sh c) -> s_y sh' = s_y (c_sh c) -> s_f sh' = s_f (c_sh c) ->
                ticket p' = Some (b, pub_incr q) -> IInvC (commit c t sh' (set_pc (c_pool c t) p') l [])).
@@ -487,7 +501,7 @@ Qed.
 Lemma wts_nonneg ts : (0 <= wts ts)%Z.
 Proof.
   unfold wts. assert (0 <= wpc (t_pc ts))%Z; [|lia].
-  destruct (t_pc ts) as [|q|q b|q b|q b g|q b g|q b g|q b g| |hm|hm]; cbn [wpc]; try lia.
+  destruct (t_pc ts) as [|q|q b|q b|q b|q b g|q b g|q b g|q b g| |hm|hm]; cbn [wpc]; try lia.
   - pose proof (credit_nonneg q g). lia.
   - pose proof (credit_nonneg q g). lia.
   - pose proof (credit_pub_nonneg q g). lia.
@@ -524,10 +538,10 @@ Proof.
         destruct (t_pc (c_pool c m)); try discriminate Hidle. discriminate Tm. }
       exists m. split; [exact HmL|].
       unfold is_neutral, neutral_pc, is_neutral. cbn [t_pc t_todo].
-      destruct (t_pc (c_pool c m)) as [|q'|q' b'|q' b'|q' b' g|q' b' g|q' b' g|q' b' g| |hm|hm]; cbn [ticket] in Tm; try discriminate Tm;
+      destruct (t_pc (c_pool c m)) as [|q'|q' b'|q' b'|q' b'|q' b' g|q' b' g|q' b' g|q' b' g| |hm|hm]; cbn [ticket] in Tm; try discriminate Tm;
         injection Tm as -> _; cbn [flip]; rewrite ?N.eqb_refl; cbn [negb andb]; auto. }
   unfold done in Hnd.
-  destruct (t_pc (c_pool c t0)) as [|q|q b|q b|q b g|q b g|q b g|q b g| |hm|hm] eqn:Hpc;
+  destruct (t_pc (c_pool c t0)) as [|q|q b|q b|q b|q b g|q b g|q b g|q b g| |hm|hm] eqn:Hpc;
     try (exists t0; split; [exact Hin|left; unfold is_neutral; rewrite Hpc; reflexivity]).
   - exists t0. split; [exact Hin|left]. unfold is_neutral. rewrite Hpc.
     destruct (t_todo (c_pool c t0)); [exfalso; apply Hnd; auto|reflexivity].
